@@ -347,6 +347,26 @@ class ExtendedKalmanFilter:
                     extra = f"\nExtra: {extra_from_map}"
                 raise ModelConstructionError(f"Mismatched Calibration:{missing}{extra}")
 
+        # Same structural checks as the Python EKF (python.ExtendedKalmanFilter)
+        if len(process_noise) != self.control_size:
+            raise ModelConstructionError(
+                f"Process noise needs one entry per control: {len(process_noise)} entries for {self.control_size} controls"
+            )
+        for key, value in process_noise.items():
+            if value < 0.0:
+                raise ModelConstructionError(
+                    f"Negative process noise for {key}: {value}"
+                )
+        if set(sensor_models.keys()) != set(sensor_noises.keys()):
+            raise ModelConstructionError(
+                f"Sensor noises {sorted(sensor_noises.keys())} do not match sensor models {sorted(sensor_models.keys())}"
+            )
+        for key, sensor_model in sensor_models.items():
+            if len(sensor_noises[key]) != len(sensor_model):
+                raise ModelConstructionError(
+                    f"Sensor noise for {key} needs one entry per reading: {len(sensor_noises[key])} entries for {len(sensor_model)} readings"
+                )
+
         self._process_model = BasicBlock(
             statements=self._translate_process_model(state_model),
             indent=4,
